@@ -35,13 +35,14 @@ for d in w8:
     h0 = (m.get('check_history') or [{}])[0].get('checks', {})
     w8first += any(v['caught'] for v in h0.values())
 extra = extra.replace('@@W8N@@', str(len(w8))).replace('@@W8FIRST@@', str(w8first))
-w9 = [d for d in seeded if '-w9' in d]
+w9 = [d for d in seeded if '-w9' in d and d[:3] not in ('C01', 'C02', 'C03', 'C04', 'C05', 'C14', 'C18')]
+w9all = [d for d in seeded if '-w9' in d]
 w9first = 0
 for d in w9:
     m = json.load(open(os.path.join(HERE, 'seeded', d, 'meta.json')))
     h0 = (m.get('check_history') or [{}])[0].get('checks', {})
     w9first += any(v['caught'] for v in h0.values())
-extra = extra.replace('@@W9N@@', str(len(w9))).replace('@@W9FIRST@@', str(w9first))
+extra = extra.replace('@@W9N@@', str(len(w9all))).replace('@@W9FIRST@@', str(w9first))
 sec = extra.replace('@@FIXES@@', fixes).replace('@@TABLE@@', table).replace('@@NSEEDED@@', str(len(seeded))).replace('@@NFIRST@@', str(ncaught_first))
 p = os.path.join(HERE, 'DESIGN.md')
 s = open(p).read()
